@@ -348,7 +348,11 @@ def hist_c16(out, sim, rng, n, extra):
             # C17: the store must hold what was transmitted, before the objects go away
             check_store(out, s, n, stored_expect, ops)
             s.close()
-            r = s.new(role, s.cfg['sci'], s.cfg['tci'], hb, persist, purge=0)
+            # mostly plain recovery; sometimes exactly one start number is configured (to the value it has anyway): the other must still be recovered
+            how = rng.choice(['recover', 'recover', 'send-configured', 'recv-configured'])
+            ops[-1] = 'restart(%s)' % how
+            r = s.new(role, s.cfg['sci'], s.cfg['tci'], hb, persist, purge=0,
+                      sendseq=expect_next if how == 'send-configured' else 0, recvseq=s.peer_seq if how == 'recv-configured' else 0)
             s.handshake(r, hb)
             ok = account('restart')
             out.stat('restarts')
@@ -642,6 +646,8 @@ def hist_c19(out, sim, rng, n, extra):
             kind, seq = 'ahead', E + rng.randint(1, 5)
         elif k < 0.52 and E > 2:
             kind, seq = 'low-no-possdup', rng.randint(1, E - 1)
+            if rng.random() < 0.5:
+                kw = dict(extra_header=[(43, 'N')])     # the flag is present but says N
         elif k < 0.62 and E > 2:
             kind, seq = 'low-possdup-ok', rng.randint(1, E - 1)
             kw = dict(possdup=True, orig_ms=s.now - rng.choice([0, 1, 5000]))
@@ -654,8 +660,10 @@ def hist_c19(out, sim, rng, n, extra):
         elif k < 0.79:
             kind, seq = 'wrong-compid', E
             kw = dict(sender=peer + 'X') if rng.random() < 0.5 else dict(target=own + 'X')
-        elif k < 0.87:
+        elif k < 0.84:
             kind, seq = 'corrupt-' + rng.choice(['bad-checksum', 'missing-mandatory', 'unknown-tag', 'duplicate-field']), E
+        elif k < 0.87:
+            kind, seq = 'corruptahead-' + rng.choice(['bad-checksum', 'missing-mandatory', 'unknown-tag']), E + rng.randint(1, 5)
         elif k < 0.93:
             kind, seq = 'header-value-contains-34=', E
             kw = dict(pre=[(rng.choice([50, 57, 115, 128]), rng.choice(['34=%d' % (E + 3), 'A34=7', 'x34=1', '34=']))])
@@ -668,6 +676,8 @@ def hist_c19(out, sim, rng, n, extra):
             raw = s.order(cid, seq=seq, **kw)
             if kind.startswith('corrupt-'):
                 raw = corrupt(rng, raw, kind[8:])
+            elif kind.startswith('corruptahead-'):
+                raw = corrupt(rng, raw, kind[13:])
         trace.append('%s(%d|E=%d)' % (kind, seq, E))
         if len(trace) == 6 and n % 37 == 0 and len(out.samples) < 3:
             out.samples.append({'role': role, 'enforce': enforce, 'trace': list(trace), 'deliveries_so_far': delivered_total})
@@ -707,6 +717,16 @@ def hist_c19(out, sim, rng, n, extra):
             if '5' not in types or not terminated:
                 out.v('oracle:no-logout-and-termination|' + kind, '%s: outbound types %s, shutdown=%s state=%s' % (ctx, types, q.get('shutdown'), q.get('state')), s)
             return      # the session is (or should be) over
+        elif kind.startswith('corruptahead-'):
+            # a message that is not in sequence never moves the expected number, whether it decodes or not; nothing else is demanded
+            if terminated:
+                return
+            if int(q['recv']) != E:
+                out.v('oracle:expected-number-moved-by-out-of-sequence-message|' + kind, '%s: session now expects %s' % (ctx, q['recv']), s)
+                return
+            if any(m.type == '2' for m in outs):
+                outstanding = True
+            continue
         elif kind.startswith('corrupt-'):
             if '3' not in types and not ('5' in types and terminated):
                 out.v('oracle:corrupt-message-not-rejected|' + kind, '%s: outbound types %s' % (ctx, types), s)
@@ -979,6 +999,7 @@ def hist_c22(out, sim, rng, n, extra):
     LS = LR = s.now          # model: instants of the last transmission / reception (ms)
     pending = False
     T_tr = None
+    ahead_done = False
     lim = (H + H // 5 + 1) * 1000        # "more than H plus 20 percent", the session works in whole seconds: from floor(1.2H)+1 s it is due
     free_lo = 1200 * H                   # up to and including 1.2 H nothing may be concluded
     trace = []
@@ -1043,7 +1064,7 @@ def hist_c22(out, sim, rng, n, extra):
             continue
         if k < 0.90:
             trace.append('in-hb')
-            tid = 'TEST' if pending else None
+            tid = 'TEST' if pending and rng.random() < 0.5 else None      # the statement says "an inbound Heartbeat", with or without the id
             r = s.inject(s.peer_msg('0', [(112, tid)] if tid else []))
             LR = s.now
             if s.wire[mark:]:
@@ -1058,7 +1079,17 @@ def hist_c22(out, sim, rng, n, extra):
             continue
         if pending:
             continue        # while a test request is pending only its answer (or silence) is played: other traffic makes the statement ambiguous
-        if k < 0.95:
+        if k < 0.92 and not ahead_done:
+            # a message ahead of sequence: the session asks for a resend (state resend_request_sent); supervision must go on regardless
+            ahead_done = True
+            ident += 1
+            trace.append('in-ahead')
+            s.inject(s.order('h%d_%d' % (n, ident), seq=s.peer_seq + 3))
+            LR = s.now
+            if s.wire[mark:]:
+                LS = s.now
+            continue
+        if k < 0.95 and not ahead_done:
             ident += 1
             trace.append('in-app')
             s.inject(s.order('h%d_%d' % (n, ident)))
